@@ -11,6 +11,7 @@ import csv
 import io
 import itertools
 
+from rdflib import Graph
 from rdflib.namespace import XSD
 from rdflib.query import Result
 from rdflib.term import BNode, Literal, URIRef, Variable
@@ -189,6 +190,9 @@ def _first_diff(got, exp, rows):
     return "cell-differs|?"
 
 
+_ENGINE = Graph(bind_namespaces="none")
+
+
 def check_table(nvars, rows):
     """Returns list of (sig, detail)."""
     v = []
@@ -208,6 +212,28 @@ def check_table(nvars, rows):
                 v.append(("%s|%s" % (fmt, _first_diff(got, exp, rows)), {"got": got, "expected": exp}))
         except Exception as e:  # noqa: BLE001
             v.append(("%s|raises|%s|%s" % (fmt, type(e).__name__, wc), {"exc": repr(e)[:300]}))
+    # the same table as the result object a query returns (evaluated lazily), serialised more than once and after it has been iterated
+    ncells = sum(len(r) for r in rows)
+    if rows and ncells <= 2 and not any(d is not None and d[0] == "B" for r in rows for d in r):
+        try:
+            q = "SELECT %s WHERE { VALUES (%s) { %s } }" % (" ".join("?v%d" % i for i in range(nvars)), " ".join("?v%d" % i for i in range(nvars)),
+                                                            " ".join("(%s)" % " ".join("UNDEF" if d is None else mk(d).n3() for d in r) for r in rows))
+            res_q = _ENGINE.query(q)
+            first = res_q.serialize(format="json")
+            second = res_q.serialize(format="xml")
+            list(res_q)
+            third = res_q.serialize(format="json")
+            for label, fmt, data in (("first", "json", first), ("second", "xml", second), ("after-iteration", "json", third)):
+                back = Result.parse(io.BytesIO(data), format=fmt)
+                got = table_keys(back, nvars)
+                if [str(x) for x in back.vars] != exp_vars or got != exp:
+                    v.append(("engine-result|%s-serialisation(%s)|%s" % (label, fmt, _first_diff(got, exp, rows) if len(got) == len(exp) else "row-count-differs|" + wc),
+                              {"query": q, "got": got, "expected": exp}))
+                    break
+            # (iterating a Result deliberately skips rows that bind nothing - "don't add a result row in case of empty binding" - and the
+            #  property speaks of serialising and parsing back: the number of iterated rows is not compared)
+        except Exception as e:  # noqa: BLE001
+            v.append(("engine-result|raises|%s|%s" % (type(e).__name__, wc), {"exc": repr(e)[:300]}))
     # TSV: independent writer -> rdflib reader; rows binding nothing are not compared
     for style in TSV_STYLES:
         try:
@@ -307,7 +333,7 @@ def run(ctx):
     ctx.cov["exhaustive"] = True
     ctx.cov["rule"] = ("Tables: 1x1 over the cell alphabet K, 1 var x 2 rows (K^2), 2 vars x 1 row (K^2), 2x2 over a 12-cell sub-alphabet (12^4), empty "
                        "tables, all-unbound row, trailing unbound column, both ASK values; each through JSON, XML (round trip), TSV (4 spellings of an "
-                       "independent writer -> rdflib reader) and CSV (rdflib writer -> stdlib csv). Non-trivial: a cell needs escaping, is falsy, "
+                       "independent writer -> rdflib reader) and CSV (rdflib writer -> stdlib csv); every table of <=2 cells also as the lazily evaluated result of a VALUES query, serialised twice and once more after iteration. Non-trivial: a cell needs escaping, is falsy, "
                        "non-BMP, a blank node or unbound.")
     ctx.sample({"table": [2, [[["L", "a\tb", None, None], None], [["B", "b1", None, None], ["L", "", None, "en"]]]]})
     ctx.assumptions += ["for TSV only rows binding at least one variable are compared (an all-unbound row is an empty line)",
